@@ -10,6 +10,18 @@ PID = 'C17'
 PARTS = [('water', '3 mL'), ('dmso', '2 mL'), ('nacl', '1.5 mmol'), ('na2so4', '0.7 mmol'), ('lipase', '0.4 U')]
 MIXTURES = [list(c) for r in range(1, 6) for c in itertools.combinations(range(5), r)]      # 31 non-empty subsets
 SELECTORS = ['water', 'dmso', 'nacl', 'na2so4', 'lipase', 'SOLID', 'LIQUID', 'ENZYME', 'tea']
+# twins (e1.TWINS): other substances carrying the name of nacl / dmso / lipase. Mixtures that hold a twin next to its
+# namesake (plus up to two more parts), and the twins as selectors: a substance is selected by what it is, not by its name
+PARTS += [('nacl_h', '0.9 mmol'), ('dmso_x', '1 mL'), ('lipase_s', '3 mg')]
+N_PLAIN = len(MIXTURES)
+for _a, _b in ((2, 5), (1, 6), (4, 7)):
+    _rest = [i for i in range(8) if i not in (_a, _b)]
+    for _r in range(0, 3):
+        for _c in itertools.combinations(_rest, _r):
+            _m = sorted((_a, _b) + _c)
+            if _m not in MIXTURES:
+                MIXTURES.append(_m)
+TWIN_SELECTORS = ['nacl_h', 'dmso_x', 'lipase_s']
 Q_SLICES = ["'A:1'", "(2, 2)", "('B', 1)", "1", "'B'", "(slice(None), 1)", "(slice(None), '2')", "slice(None)",
             "(slice(None), slice(None))", "['A:2', 'B:1']", "[(2, 2)]", "(slice(1, 2), slice(2, 2))"]
 
@@ -37,20 +49,20 @@ def mk_plate(pp, subs, mi):
 def selected(what, s):
     if what in e1.CLASSES:
         return {'SOLID': s.is_solid(), 'LIQUID': s.is_liquid(), 'ENZYME': s.is_enzyme()}[what]
-    return s.name == what
+    return e1.ident(s) == e1.ident(_G['subs'][what])
 
 
 def expect_container(pp, c, what):
-    return {s: a for s, a in c.contents.items() if not selected(what, s)}
+    return {e1.ident(s): a for s, a in c.contents.items() if not selected(what, s)}
 
 
 def check_container(pp, before, after, what, where, case, feat):
     want = expect_container(pp, before, what)
-    if after.contents != want:
+    if e1.by_ident(after.contents) != want or len(after.contents) != len(want):
         return V(f"remove | wrong-contents | {feat}",
                  f"{where}: remove({what}) from {e1.contents_key(before, 9)} gives {e1.contents_key(after, 9)}", case,
-                 [(s.name, a) for s, a in want.items()], e1.contents_key(after, 12))
-    v = ref.volume_stored(pp, want)
+                 [(s[0], a) for s, a in want.items()], e1.contents_key(after, 12))
+    v = ref.volume_stored(pp, {s: a for s, a in before.contents.items() if not selected(what, s)})
     if abs(after.volume - float(v)) > ref.tol(pp, v, 0, scale=5):
         return V(f"remove | wrong-volume | {feat}", f"{where}: volume after remove({what}) is {after.volume!r}, contents occupy "
                  f"{float(v)!r}", case, float(v), after.volume)
@@ -62,11 +74,12 @@ def check_container(pp, before, after, what, where, case, feat):
 def run_case(item):
     pp, vidx = _G['pp'], _G['vidx']
     subs = e1.substances(pp, vidx)
+    _G['subs'] = subs
     mi, what, form, via = item
     arg = e1.CLASSES[what] if what in e1.CLASSES else subs[what]
     case = {'vidx': vidx, 'item': list(item)}
     feat = f"object={'container' if form == 'container' else 'plate' if form == 'plate' else 'slice'},via={via}," \
-           f"selector={'class' if what in e1.CLASSES else 'substance'}"
+           f"selector={'class' if what in e1.CLASSES else 'substance'}" + (',twins' if mi >= N_PLAIN else '')
     env.clear_caches(pp)
     other = pp.Container('Z', 'inf L', [(subs['tea'], '1 mL')])
     if form == 'container':
@@ -102,12 +115,14 @@ def run_case(item):
         return [V(f"remove | raises | {feat}", f"remove({what}) on {form} ({via}) raised {type(e).__name__}: {e}", case)], 'raises'
     if e1.exact_obj(obj) != fp:
         return [V(f"remove | argument-mutated | {feat}", f"remove({what}) on {form} modified its argument", case)], 'mutated'
-    removed = {}          # substance -> stored amount actually expected to be discarded
+    removed = {}          # substance (by identity) -> stored amount actually expected to be discarded
+    sub_of = {}
     if form == 'container':
         v = check_container(pp, obj, res, what, f"container {MIXTURES[mi]}", case, feat)
         if v:
             return [v], 'bad'
-        removed = {s: a for s, a in obj.contents.items() if selected(what, s)}
+        removed = {e1.ident(s): a for s, a in obj.contents.items() if selected(what, s)}
+        sub_of.update({e1.ident(s): s for s in obj.contents})
     else:
         if not e1.is_plate(res) or res.wells.shape != obj.wells.shape:
             return [V(f"remove | wrong-result-shape | {feat}", f"remove on {form} returned {type(res).__name__}", case)], 'bad'
@@ -120,7 +135,8 @@ def run_case(item):
                         return [v], 'bad'
                     for s, amt in b.contents.items():
                         if selected(what, s):
-                            removed[s] = removed.get(s, 0.0) + amt
+                            removed[e1.ident(s)] = removed.get(e1.ident(s), 0.0) + amt
+                            sub_of[e1.ident(s)] = s
                 elif e1.exact_obj(b) != e1.exact_obj(a):
                     return [V(f"remove | frame-changed | {feat}",
                               f"remove({what}) on [{form}] changed well {r + 1},{c + 1}, which is not addressed", case)], 'bad'
@@ -128,7 +144,7 @@ def run_case(item):
         return [], ('ok', bool(removed))
     # ---- the amounts removed are what usage tracking reports as discarded -----------------------------------------------
     for s in subs.values():
-        want = removed.get(s, 0.0)
+        want = removed.get(e1.ident(s), 0.0)
         unit = 'U' if s.is_enzyme() else pp.config.moles_storage_unit
         for tf in ('s', 'all'):
             try:
@@ -143,7 +159,7 @@ def run_case(item):
                           f"the addressed wells but get_substance_used(..., {tf!r}, destinations=[other object]) = {got!r}",
                           case, want, got)], 'bad'
     # out-flow of the object over the step, in mass (defined for every substance kind)
-    want_mg = float(sum(ref.measure(pp, {s: a}, 'g') for s, a in removed.items())) * 1000
+    want_mg = float(sum(ref.measure(pp, {sub_of[s]: a}, 'g') for s, a in removed.items())) * 1000
     try:
         flows = recipe.get_container_flows(obj, 's', 'mg')
         got_out = float(numpy.sum(flows['out']))
@@ -156,7 +172,7 @@ def run_case(item):
                   f"recipe remove({what}) on {form} of plate/mixture {mi}: {want_mg!r} mg were removed but get_container_flows "
                   f"reports out={got_out!r} in={got_in!r}", case, want_mg, got_out)], 'bad'
     # activity discarded, in activity units (the mass of an enzyme is too small to show in mg)
-    want_u = float(sum(ref.measure(pp, {s: a}, 'U') for s, a in removed.items()))
+    want_u = float(sum(ref.measure(pp, {sub_of[s]: a}, 'U') for s, a in removed.items()))
     try:
         got_u = float(numpy.sum(recipe.get_container_flows(obj, 's', 'U')['out']))
     except Exception as e:  # noqa
@@ -171,7 +187,8 @@ def run_case(item):
 def run(col):
     pp = env.load()
     col.rule = ("all 31 non-empty mixtures of {2 liquids, 2 solids, 1 enzyme} x 9 selectors (each substance, each class, an absent "
-                "substance) x {container, whole 2x2 plate with four different mixtures, 12 slice geometries} x {direct, recipe "
+                "substance), plus every mixture of a substance with a TWIN (another substance carrying its name: hydrate, other "
+                "grade, inactive preparation) and up to two more parts x 12 selectors x {container, whole 2x2 plate with four different mixtures, 12 slice geometries} x {direct, recipe "
                 "step}; result contents must equal the argument restricted to the non-selected substances exactly, volume by "
                 "the reference model, unaddressed wells bit-identical; in a recipe get_substance_used(destinations=[another "
                 "object]) and the out-flow of the object must equal the removed amounts of exactly the addressed wells. "
@@ -180,7 +197,8 @@ def run(col):
     forms = ['container', 'plate'] + Q_SLICES + SUB_SLICES
     for v in vals:
         _G.update(pp=pp, vidx=v)
-        items = [(mi, what, form, via) for mi in range(len(MIXTURES)) for what in SELECTORS for form in forms
+        items = [(mi, what, form, via) for mi in range(len(MIXTURES))
+                 for what in SELECTORS + (TWIN_SELECTORS if mi >= N_PLAIN else []) for form in forms
                  for via in ('direct', 'recipe')]
         res = par.pmap(run_case, items)
         classes = set()
